@@ -132,6 +132,9 @@ def make_obj(desc):
     if k == "map":
         return td.FeatureList([make_map(desc["cls"], rng, desc.get("style", 0))]), "featurelist"
     if k == "featurelist":
+        # the map sequence depends on the seed only, so that lists with the same seed and
+        # different n are prefixes of one another (their YAML texts too)
+        rng = Rng(derive("fsim-fl", desc.get("seed", 0)))
         names = all_map_names()
         n = desc.get("n", 5)
         maps = [make_map(rng.choice(names), rng, rng.below(3)) for _ in range(n)]
@@ -649,6 +652,11 @@ def gen_history(seed, nops=None):
     for i in range(nobj):
         d = dict(rng.choice(HIST_OBJS))
         d["seed"] = rng.below(1000)
+        prev = [o for o in objs if o["obj"] == "featurelist"]
+        if d["obj"] == "featurelist" and prev and rng.chance(0.6):
+            # a shorter/longer list with the same leading maps as an earlier object
+            d["seed"] = prev[0]["seed"]
+            d["n"] = rng.choice([k for k in (2, 3, 4, 6, 9) if k != prev[0]["n"]])
         objs.append(d)
     ops = []
     n = nops or rng.randint(4, 10)
@@ -681,6 +689,19 @@ def exec_history(hist, spec):
             objs.append({"o": o, "kind": kind, "fmt": fmt, "ref": EVAL[kind](o, 11) + "|" + type_sig(o, kind), "desc": d})
         # model: path -> {"ref":..., "kind":..., "fmt":..., "ack": bool}
         disk = {}
+        held = []  # objects returned by earlier loads: (object, kind, digest when loaded)
+
+        def check_held(step):
+            for o_, k_, d_ in held:
+                try:
+                    now = EVAL[k_](o_, 11) + "|" + type_sig(o_, k_)
+                except Exception as e:
+                    now = "raise:" + type(e).__name__
+                if now != d_:
+                    ck.v("history:loaded-object-changed-by-later-io:%s" % k_, "step %d: an object returned by an earlier load evaluates differently after later dumps/loads" % step, rp)
+                    return False
+            return True
+
         for step, op in enumerate(hist["ops"]):
             ob = objs[op["obj"]]
             kind, fmt = ob["kind"], ob["fmt"]
@@ -722,7 +743,12 @@ def exec_history(hist, spec):
                 if ent is None or ent["kind"] != kind or ent["fmt"] != fmt:
                     continue
                 plan = {"fail_read_at": op["at"]} if c == "load_fault" else None
-                st, info, _ = ck.try_load(kind, fmt, path, 11, plan)
+                st, info, lo = ck.try_load(kind, fmt, path, 11, plan)
+                if st == "ok" and ent["ack"] and len(held) < 6:
+                    held.append((lo, kind, info))
+                if len(held) > 1:
+                    ck.stats["held_objects_rechecked"] += len(held) - 1
+                    check_held(step)
                 if not ent["ack"]:
                     ck.stats["tainted_loads"] += 1
                     continue  # tainted: anything goes except a crash
@@ -739,6 +765,7 @@ def exec_history(hist, spec):
             # in-memory objects must never change
             for ob2 in objs:
                 pass
+        check_held(len(hist["ops"]))
         for ob in objs:
             if EVAL[ob["kind"]](ob["o"], 11) + "|" + type_sig(ob["o"], ob["kind"]) != ob["ref"]:
                 ck.v("history:in-memory-object-changed:%s" % ob["kind"], "object differs after history", rp)
